@@ -3,6 +3,10 @@ import WfModel.GenLifecycleShape
 import WfProofs.LifecycleCover
 import WfProofs.LifecycleRow
 import WfProofs.LifecycleReplay
+import WfProofs.LifecycleIdle
+import WfProofs.DbosTimer
+import WfProofs.LifecycleCalm
+import WfModel.GenDbosTimer
 /-!
 # C36 — idle runs are released after the idle timeout and reloaded on demand
 
@@ -228,6 +232,128 @@ theorem C36_no_release_while_sending (s : S) (a : Act) :
     | none => exact absurd hk hl
     | some _ => simp
 
+/-! ## every history (in-process stack) -/
+
+/-- **a released run is marked idle — in every reachable state**, not only right after the release step: whenever
+no control loop of the run is in memory, the handler row carries `idle_since`, and it is the time of the last idle
+announcement; the run is out of the active set.  (Nobody can clear `idle_since` of a released run without first
+reloading it: both clears sit in lock sections that have seen, or made, the run active.) -/
+theorem C36_released_run_marked_idle (tau : Nat) (acts : List Act) :
+    let s := run (init tau) acts
+    s.cur = none → ∃ t, s.idleSince = some t ∧ s.lastMark = some t ∧ t ≤ s.now ∧ s.active = false := by
+  intro s hc
+  have hinv : Inv s := Inv.run (init tau) acts (Inv.init tau)
+  have hid : IdleInv s := IdleInv.run acts (init tau) (IdleInv.init tau) (Inv.init tau)
+  have h1 := hid.relIdle hc
+  cases hi : s.idleSince with
+  | none => rw [hi] at h1; cases h1
+  | some t =>
+    have h2 := hinv.idleLe t hi
+    refine ⟨t, rfl, h2.2, h2.1, ?_⟩
+    have := hinv.act; rw [hc] at this; simpa using this
+
+/-- non-vacuity, and the state is really kept while other things happen: released at 200, time passes, a second
+(stale) release task runs through its section, a sender has called and waits for the lock — still marked idle -/
+example :
+    let s := run (init 200) [.eDone, .eMark, .eSpawn 0, .advance 200, .tAcq 0, .tQuery 0, .tDecide 0, .advance 500, .sCall 3]
+    s.cur = none ∧ s.idleSince = some 0 ∧ s.lastMark = some 0 ∧ s.active = false := by decide
+
+/-- **releases and reloads, counted over the whole history**: every release aborted exactly one loop, and the number
+of loops ever started is the number of releases plus one while the run is in memory, and exactly the number of
+releases while it is released — each release is answered by at most one reload, no reload happens without a
+release, and a loaded run has been reloaded exactly as often as it has been released. -/
+theorem C36_reloads_match_releases (tau : Nat) (acts : List Act) :
+    let s := run (init tau) acts
+    s.aborted = s.releases.length ∧ s.started = s.releases.length + (if s.cur.isSome then 1 else 0) := by
+  intro s
+  have hinv : Inv s := Inv.run (init tau) acts (Inv.init tau)
+  have hid : IdleInv s := IdleInv.run acts (init tau) (IdleInv.init tau) (Inv.init tau)
+  exact ⟨hid.relCount, by rw [← hid.relCount]; exact hinv.count⟩
+
+/-- non-vacuity: two release / reload cycles -/
+example :
+    let s := run (init 200) [.eDone, .eMark, .eSpawn 0, .advance 200, .tAcq 0, .tQuery 0, .tDecide 0,
+      .sCall 1, .sAcq 1, .sQuery 1, .sLog 1, .sStart 1, .sRClear 1, .sDeliver 1, .ePull, .eReduce, .eDone, .eMark, .eSpawn 1,
+      .advance 200, .tAcq 1, .tQuery 1, .tDecide 1,
+      .sCall 2, .sAcq 2, .sQuery 2, .sLog 2, .sStart 2, .sRClear 2, .sDeliver 2]
+    s.releases = [(200, 0), (400, 200)] ∧ s.started = 3 ∧ s.aborted = 2 ∧ s.cur.isSome = true := by decide
+
+/-- **"continues from where it stopped", for every interleaving** (the store calls of the reload may suspend, other
+senders and release tasks queue, the engine of the new loop runs as soon as it is started): in every reachable state
+and for every action, an action that starts a control loop registers a loop whose state is rebuilt from the *entire*
+tick log as it is at that instant (the list the sender read earlier is still the whole log: nothing is persisted
+while the run is out of memory), numbered by the loops started before it; the rebuilt-from list of the registered
+loop is always a prefix of the log (what the incarnation persists is appended to what it was rebuilt from) and its
+number is `started - 1`; and the log itself only ever grows — no release, reload or send drops a persisted tick. -/
+theorem C36_reload_from_all_persisted (tau : Nat) (acts : List Act) (a : Act) :
+    let s := run (init tau) acts
+    ((stepD s a).started ≠ s.started →
+        (stepD s a).cur = some { inc := s.started, start := s.log } ∧ (stepD s a).started = s.started + 1 ∧
+        (stepD s a).log = s.log ∧ (stepD s a).active = true) ∧
+    (∀ l, s.cur = some l → l.start <+: s.log ∧ l.inc + 1 = s.started) ∧
+    s.log <+: (stepD s a).log ∧ (∀ acts', s.log <+: (run s acts').log) := by
+  intro s
+  have hid : IdleInv s := IdleInv.run acts (init tau) (IdleInv.init tau) (Inv.init tau)
+  refine ⟨?_, hid.startPre, log_prefix_step s a, fun acts' => log_prefix_run acts' s⟩
+  intro h
+  rcases stepD_eq s a with e | e
+  · rw [e] at h; exact absurd rfl h
+  · generalize stepD s a = s' at h e
+    cases a
+    all_goals destruct_step e
+    all_goals (try (exact absurd rfl h))
+    all_goals (try (simp only [release_started] at h; exact absurd rfl h))
+    all_goals (rename_i x i' snap heq hi _ _; have := hid.snap _ _ heq; subst this; exact ⟨rfl, rfl, rfl, rfl⟩)
+
+/-- non-vacuity: the reloading sender is suspended after it has read the log (`sLog`) while a second sender queues
+and time passes; the loop it then starts is incarnation 1, rebuilt from the whole log `[1]` -/
+example :
+    let s := run (init 200) [.eDone, .eMark, .eSpawn 0, .sCall 1, .sAcq 1, .sClear 1, .sDeliver 1, .ePull, .eReduce, .eDone,
+      .eMark, .eSpawn 1, .advance 200, .tAcq 0, .tQuery 0, .tDecide 0, .advance 5, .tAcq 1, .tQuery 1, .tDecide 1,
+      .sCall 2, .sAcq 2, .sQuery 2, .sLog 2, .sCall 3, .advance 7]
+    s.log = [1] ∧ s.cur = none ∧ (stepD s (.sStart 2)).started ≠ s.started ∧
+      (stepD s (.sStart 2)).cur = some { inc := 1, start := [1] } := by decide
+
+/-- **release, as a statement about whole histories** (liveness read as safety): in every reachable state in which
+the handler row says "idle since `t`", no lock section is open, the announcement is complete, and every deferred
+release task that is still asleep was armed for an earlier announcement (wakes before `t + idle_timeout`) — in
+particular when all release tasks have run — the run **is** out of memory.  So an idle run can stay in memory only
+as long as a release task that will act on this very `idle_since` is still to run; the asyncio scheduler running
+that task (its sleep is `idle_timeout`, `C36_source_shape`) is the only thing left to trust. -/
+theorem C36_release_when_timers_quiescent (tau : Nat) (acts : List Act) :
+    let s := run (init tau) acts
+    ∀ t, s.idleSince = some t → s.lock = none → s.marking = false →
+      (∀ j due, s.timers j = .sleeping due → due < t + tau) → s.cur = none ∧ s.active = false := by
+  intro s t hi hl hm hq
+  have hinv : Inv s := Inv.run (init tau) acts (Inv.init tau)
+  have hcov : CoverInv s := CoverInv.run acts (init tau) (CoverInv.init tau) (Inv.init tau)
+  have htau : s.tau = tau := run_tau (init tau) acts
+  have hnone : s.cur = none := by
+    cases hc : s.cur with
+    | none => rfl
+    | some l =>
+      exfalso
+      rcases hcov.cov t hi (by simp [hc]) with c | ⟨j, due, c1, c2⟩ | ⟨j, c1, _⟩ | ⟨j, c1, _⟩ | ⟨i, c⟩
+      · rw [hm] at c; cases c
+      · have := hq j due c1; rw [htau] at c2; omega
+      · rw [hl] at c1; cases c1
+      · rw [hl] at c1; cases c1
+      · rw [hl] at c; cases c
+  refine ⟨hnone, ?_⟩
+  have := hinv.act; rw [hnone] at this; simpa using this
+
+/-- non-vacuity: two idle periods inside one `idle_timeout`; the first task (armed for the announcement at 0) has
+run and returned, the second (armed for the announcement at 120) has run: released; and before the second has run
+the hypothesis fails exactly because that task is still asleep until 320 = 120 + 200 -/
+example :
+    let pre := [Act.eDone, .eMark, .eSpawn 0, .advance 50, .sCall 1, .sAcq 1, .sClear 1, .sDeliver 1,
+      .ePull, .eReduce, .advance 70, .eDone, .eMark, .eSpawn 1, .advance 80, .tAcq 0, .tQuery 0, .tDecide 0, .advance 120]
+    let s0 := run (init 200) pre
+    let s := run (init 200) (pre ++ [.tAcq 1, .tQuery 1, .tDecide 1])
+    (s0.idleSince = some 120 ∧ s0.cur.isSome = true ∧ s0.timers 1 = .sleeping 320 ∧ s0.timers 0 = .done) ∧
+    (s.idleSince = some 120 ∧ s.lock = none ∧ s.marking = false ∧ s.timers 0 = .done ∧ s.timers 1 = .done ∧ s.cur = none) := by
+  decide
+
 /-! ## DBOS stack -/
 
 /-- the statement for the DBOS stack, on the protocol model: a run whose workflow is up and idle (empty inbox)
@@ -344,3 +470,230 @@ example : ∀ a ∈ [BAct.create, .uSpawn 0, .uTry 0, .rSpawn 0, .rBegin 0, .uSe
   intro a ha i h
   subst h
   simp at ha
+
+/-! ## DBOS stack: "the row says `released`" and "the run is out of memory" -/
+
+/-- the clause a resumer relies on (`_do_resume` first awaits the old workflow's result), at full strength on machine (B):
+along every crash-free schedule, whenever the lifecycle row says `released` no workflow of the run is executing -/
+def C36_dbos_released_means_unloaded_statement : Prop :=
+  ∀ (acts : List BAct), (∀ a ∈ acts, ∀ i, a ≠ .rCrash i) →
+    ∀ u, (brun {} acts).db = some ⟨.released, u⟩ → (brun {} acts).wfUp = false
+
+/-- (a) a release that begins while a resume is under way (the resumer has set the row to `active`, the new workflow is not
+started yet; the releaser's TickIdleRelease goes to the exited workflow, whose result is available at once).  Machine (B)
+lets a release begin at any time; on one replica it cannot happen: the timer that would begin it was armed by the workflow
+that has exited, and the TickIdleRelease that made it exit was a received tick, which cancels the registered timer
+(`C36_dbos_no_timer_outlives_its_workflow`; tried on the real decorator over the stand-in engine: the re-armed timer of a
+run that consumed a tick inside its release window is cancelled when TickIdleRelease arrives) -/
+def C36.lateReleaseActs : List BAct :=
+  [.create, .rSpawn 0, .rBegin 0, .rSend 0, .wfStep, .rComplete 0, .uSpawn 1, .uTry 1,
+   .rSpawn 2, .rBegin 2, .rSend 2, .rComplete 2, .uFinish 1]
+
+/-- (b) a live but slow releaser: its release is taken over after the crash timeout, the run is resumed, idles, a second
+release begins — and the first releaser's late `complete_release` (guarded by `state = 'releasing'` only, not by who holds
+it) closes the *second* release before that one has even sent its TickIdleRelease -/
+def C36.supersededCompleteActs : List BAct :=
+  [.create, .rSpawn 0, .rBegin 0, .rSend 0, .wfStep, .uSpawn 1, .tick 120001, .uTry 1, .uFinish 1, .wfStep,
+   .rSpawn 2, .rBegin 2, .rComplete 0]
+
+/-- **refuted on the protocol model** (model witnesses only — DBOS is not available; at the level of the real
+`SqliteRunLifecycleLock` both are ordinary CAS sequences, replayed on it on every run): in both schedules the row
+ends up `released` while a workflow of the run is executing; no releaser crashed.  A sender that now finds `released`
+owns a resume whose first step waits for a workflow that is alive.  (a) needs a release attempt without a live, idle
+workflow behind it (another replica's stale timer); (b) needs a releaser that is alive but slower than the crash timeout
+(the negation of `promptAt`, C26_crash_timeout) — `complete_release` is guarded by the row's state, not by its holder. -/
+theorem C36_dbos_released_means_unloaded_refuted :
+    ¬ C36_dbos_released_means_unloaded_statement ∧
+    (let s := brun {} C36.lateReleaseActs
+     s.db = some ⟨.released, 0⟩ ∧ s.wfUp = true ∧ s.wfInc = 1 ∧ s.takeovers = [] ∧ s.rel 2 = .done ∧ s.stranded = []) ∧
+    (let s := brun {} C36.supersededCompleteActs
+     s.db = some ⟨.released, 120001⟩ ∧ s.wfUp = true ∧ s.rel 2 = .won 120001 ∧ s.rel 0 = .done ∧ s.takeovers.length = 1) ∧
+    balongB calmAt {} C36.lateReleaseActs = false ∧ balongB calmAt {} C36.supersededCompleteActs = false := by
+  refine ⟨?_, by decide, by decide, by decide, by decide⟩
+  intro h
+  have := h C36.lateReleaseActs (by intro a ha i e; subst e; simp [C36.lateReleaseActs] at ha) 0 (by decide)
+  revert this; decide
+
+/-- **partial** (guard `calmAt` along the schedule: a release begins only while the workflow is up, and no resumer takes
+a `releasing` row over): for every such schedule — any number of releasers and senders, releaser crashes anywhere —
+(1) a `released` row means the workflow is gone, nobody is between a CAS win and its `complete_release`, and nobody owns a
+resume; (2) from **every** such reachable state the next event reloads the run at once and exactly once: the sender's
+`try_begin_resume` wins (`released → active`), its `_do_resume` does not have to wait, a new incarnation starts with the
+event folded in and reduces it.  (`C36_dbos_release_resume_partial` is the same cycle from one given state.) -/
+theorem C36_dbos_released_means_unloaded_partial (acts : List BAct) (hg : balongB calmAt {} acts = true) :
+    let s := brun {} acts
+    (∀ u, s.db = some ⟨.released, u⟩ →
+        s.wfUp = false ∧ (∀ i, s.rel i ≠ .won u ∧ ∀ t inc, s.rel i ≠ .sentRelease t inc) ∧ ∀ k, s.res k ≠ .owner) ∧
+    (∀ u k, s.db = some ⟨.released, u⟩ → s.res k = .absent →
+        let s' := brun s [.uSpawn k, .uTry k, .uFinish k, .wfStep]
+        s'.wfUp = true ∧ s'.wfInc = s.wfInc + 1 ∧ s'.processed = s.processed ++ [k] ∧ s'.db = some ⟨.active, s.now⟩ ∧
+          s'.res k = .done ∧ s'.inbox = [] ∧ s'.wins = .resume k false :: s.wins) := by
+  intro s
+  have hc : Calm s := Calm.run acts {} Calm.init hg
+  refine ⟨?_, ?_⟩
+  · intro u hu
+    refine ⟨hc.p u hu, ?_, ?_⟩
+    · intro i
+      have hn := hc.noFlight s (by intro u' hu'; rw [hu] at hu'; cases hu') i
+      refine ⟨?_, ?_⟩
+      · intro e; rw [e] at hn; cases hn
+      · intro t inc e; rw [e] at hn; cases hn
+    · exact hc.noOwner s (by intro u' hu'; rw [hu] at hu'; cases hu')
+  · intro u k hu hk
+    have hdown := hc.p u hu
+    simp [brun, bstepD, bstep, hu, hk, hdown, upd_apply, dbTryBeginResume]
+
+/-- non-vacuity: a calm schedule with a tick consumed during the release window, two releasers, a second cycle; the
+final state is `released` -/
+example :
+    let acts := [BAct.create, .uSpawn 0, .uTry 0, .rSpawn 0, .rSpawn 1, .rBegin 0, .rBegin 1, .uSend 0, .wfStep, .rSend 0, .wfStep,
+      .rComplete 0, .uSpawn 1, .uTry 1, .uFinish 1, .wfStep, .rSpawn 2, .rBegin 2, .rSend 2, .wfStep, .tick 5, .rComplete 2]
+    balongB calmAt {} acts = true ∧ (brun {} acts).db = some ⟨.released, 5⟩ ∧ (brun {} acts).res 7 = .absent ∧
+      (brun {} acts).processed = [0, 1] := by decide
+
+/-! ## DBOS stack: *when* a release is attempted (M7 (C), `WfModel/DbosTimer.lean`)
+
+The DBOS decorator has no `idle_since` / `elapsed` test: that a release is attempted only after `idle_timeout` of
+idleness rests entirely on the bookkeeping of one timer task per run. -/
+
+/-- the sources the atomic actions of M7 (C) are cut along, re-read on every run: `_schedule_deferred_release` is
+cancel + spawn + register without an await; `_cancel_deferred_release` pops the registration and cancels the task
+unless it is done, without an await; it is called by `wait_receive` (a tick reached the run), by `_do_resume` and by
+`_schedule_deferred_release`, by nobody else; announcements are the only scheduler; nothing else touches the
+registry; `_deferred_release` is sleep, pop, release (`C36_source_shape`).  In-process stack: `_abort_inner_run`
+(the `release` of M7 (A)) looks the inner adapter up, returns if there is none, aborts it; `_spawn_task` is shared. -/
+theorem C36_dbos_timer_source_shape :
+    GenDbosTimer.shape_dbos_schedule =
+      ["call(self._cancel_deferred_release)", "call(self._deferred_release)", "call(self._spawn_task)",
+       "call(setitem:self._deferred_release_tasks)"] ∧
+    GenDbosTimer.shape_dbos_cancel =
+      ["call(_.done)", "call(self._deferred_release_tasks.pop)", "if(And,IsNot,Not;done,None,_.done)", "call(_.cancel)", "endif"] ∧
+    GenDbosTimer.kind_dbos_schedule = "sync" ∧ GenDbosTimer.kind_dbos_cancel = "sync" ∧
+    GenDbosTimer.shape_dbos_spawn =
+      ["call(_.add_done_callback)", "call(asyncio.create_task)", "call(self._background_tasks.add)", "return"] ∧
+    GenDbosTimer.shape_ir_spawn = GenDbosTimer.shape_dbos_spawn ∧
+    GenDbosTimer.cancelCallers =
+      ["DBOSIdleReleaseDecorator._do_resume", "DBOSIdleReleaseDecorator._schedule_deferred_release",
+       "_DBOSIdleReleaseInternalRunAdapter.wait_receive"] ∧
+    GenDbosTimer.scheduleCallers = ["_DBOSIdleReleaseInternalRunAdapter.write_to_event_stream"] ∧
+    GenDbosTimer.registryUsers =
+      ["DBOSIdleReleaseDecorator.__init__", "DBOSIdleReleaseDecorator._cancel_deferred_release",
+       "DBOSIdleReleaseDecorator._deferred_release", "DBOSIdleReleaseDecorator._schedule_deferred_release"] ∧
+    GenDbosTimer.shape_ir_abort =
+      ["try", "call(self._decorated.get_external_adapter)", "except", "return", "endtry", "if(;V2RuntimeCompatibilityShim)",
+       "call(_.abort)", "else", "raise", "endif"] ∧ GenDbosTimer.kind_ir_abort = "sync" := by
+  refine ⟨by decide, by decide, by decide, by decide, by decide, by decide, by decide, by decide, by decide, by decide, by decide⟩
+
+/-- **one timer per run, and it is the registered one** — for every sequence of idle announcements, ticks reaching
+the run, resumes, timer expiries, finished releases and time steps: a timer task that is still asleep is the task
+registered under the run id, it was armed by the *last* idle announcement (at `a`, due exactly `a + idle_timeout`) and
+no tick has reached the run and no resume has happened since; hence at most one timer sleeps; conversely whatever is
+registered is asleep — never a task that is already inside `_release_idle_handler` — so the `pop` in `_deferred_release`
+only ever removes the popping task's own registration (`stray = 0`) and no `_cancel_deferred_release` ever reaches
+into a running release (`abandoned = 0`; the timer-side premise of `C36_dbos_release_not_abandoned`). -/
+theorem C36_dbos_timer_discipline (tau : Nat) (acts : List DbosTimer.Act) :
+    let s := DbosTimer.run (DbosTimer.init tau) acts
+    (∀ j a d, s.tasks j = .sleeping a d →
+        s.reg = some j ∧ d = a + tau ∧ s.lastIdle = some a ∧ s.ticksSince = 0 ∧ s.pending = true ∧ a ≤ s.now) ∧
+    (∀ j j' a d a' d', s.tasks j = .sleeping a d → s.tasks j' = .sleeping a' d' → j = j') ∧
+    (∀ j, s.reg = some j → ∃ a d, s.tasks j = .sleeping a d) ∧
+    s.stray = 0 ∧ s.abandoned = 0 := by
+  intro s
+  have hinv : DbosTimer.Inv s := DbosTimer.Inv.run acts _ (DbosTimer.Inv.init tau)
+  have htau : s.tau = tau := DbosTimer.run_tau acts _
+  refine ⟨?_, ?_, hinv.rg, hinv.stray0, hinv.abandoned0⟩
+  · intro j a d hj
+    have := hinv.sl j a d hj
+    rw [htau] at this
+    exact this
+  · intro j j' a d a' d' h1 h2
+    have e1 := (hinv.sl j a d h1).1
+    have e2 := (hinv.sl j' a' d' h2).1
+    rw [e1] at e2
+    exact Option.some.inj e2
+
+/-- non-vacuity: idle at 0, a tick at 50 cancels timer 0, idle again at 120 arms timer 1, a second announcement at 130
+replaces it by timer 2 (due 330): exactly one sleeper, the registered one -/
+example :
+    let s := DbosTimer.run (DbosTimer.init 200) [.idle, .advance 50, .tick, .advance 70, .idle, .advance 10, .idle]
+    s.tasks 0 = .cancelled ∧ s.tasks 1 = .cancelled ∧ s.tasks 2 = .sleeping 130 330 ∧ s.reg = some 2 ∧ s.next = 3 := by decide
+
+/-- **a release is attempted only after `idle_timeout` of undisturbed idleness** (DBOS stack, every history): whenever
+a timer task leaves its sleep and enters `_release_idle_handler` (→ `begin_release`), an idle announcement has been
+made, at least `idle_timeout` has passed since the **last** one, and no tick has reached the run and no resume has
+happened since that announcement.  (Unlike the in-process stack this needs no hypothesis: the bookkeeping is
+synchronous, there is no query→decide window.  What can still happen *after* the attempt has begun — a tick let through
+while the row said `active` arriving during the CAS — is C26's `tick_arrived_during_release`.) -/
+theorem C36_dbos_release_attempt_after_timeout (tau : Nat) (acts : List DbosTimer.Act) :
+    ∀ r ∈ (DbosTimer.run (DbosTimer.init tau) acts).attempts,
+      ∃ a, r.idle = some a ∧ a + tau ≤ r.at_ ∧ r.ticks = 0 ∧ r.at_ ≤ (DbosTimer.run (DbosTimer.init tau) acts).now := by
+  intro r hr
+  have hinv := DbosTimer.Inv.run acts _ (DbosTimer.Inv.init tau)
+  have htau : (DbosTimer.run (DbosTimer.init tau) acts).tau = tau := DbosTimer.run_tau acts _
+  have := hinv.att r hr
+  rw [htau] at this
+  exact this
+
+/-- non-vacuity: the re-announcement case — the attempt comes at 320 = 120 + 200, not at 200 -/
+example :
+    (DbosTimer.run (DbosTimer.init 200) [.idle, .advance 50, .tick, .advance 70, .idle, .advance 80, .fire 0, .advance 120, .fire 1]).attempts =
+      [{ at_ := 320, idle := some 120, ticks := 0, task := 1 }] := by decide
+
+/-- **an idle, undisturbed DBOS run always has its release attempt ahead of it**: in every reachable state in which the
+last thing that happened to the run (among announcements, received ticks, resumes, timer expiries) is an idle
+announcement, at `a`, the registered timer task sleeps until exactly `a + idle_timeout`; letting that much time pass and
+running it is enabled and is a release attempt at `a + idle_timeout` on that announcement with no tick since, the task
+having de-registered itself before it enters the release. -/
+theorem C36_dbos_timer_cover (tau : Nat) (acts : List DbosTimer.Act) :
+    let s := DbosTimer.run (DbosTimer.init tau) acts
+    s.pending = true →
+      ∃ j a, s.lastIdle = some a ∧ s.ticksSince = 0 ∧ s.reg = some j ∧ s.tasks j = .sleeping a (a + tau) ∧
+        (let s' := DbosTimer.run s [.advance (a + tau - s.now), .fire j]
+         s'.attempts = s.attempts ++ [{ at_ := s.now + (a + tau - s.now), idle := some a, ticks := 0, task := j }] ∧
+           s'.reg = none ∧ s'.tasks j = .releasing a ∧ s'.pending = false ∧ s'.stray = 0) := by
+  intro s hp
+  have hinv : DbosTimer.Inv s := DbosTimer.Inv.run acts _ (DbosTimer.Inv.init tau)
+  have htau : s.tau = tau := DbosTimer.run_tau acts _
+  have h1 := hinv.pend hp
+  cases hr : s.reg with
+  | none => rw [hr] at h1; cases h1
+  | some j =>
+    obtain ⟨a, d, hj⟩ := hinv.rg j hr
+    obtain ⟨_, hd, hl, ht, _, _⟩ := hinv.sl j a d hj
+    rw [htau] at hd
+    subst hd
+    refine ⟨j, a, hl, ht, rfl, hj, ?_⟩
+    have hle : a + tau ≤ s.now + (a + tau - s.now) := by omega
+    have hs0 := hinv.stray0
+    simp [DbosTimer.run, DbosTimer.stepD, DbosTimer.step, hj, hle, hl, ht, hr, hs0, DbosTimer.upd_apply]
+
+/-- **no timer outlives its workflow** (what machine (B)'s guard "a release begins only while the workflow is up" rests on,
+on one replica): in every reachable state, once a tick has reached the run — any tick, in particular the TickIdleRelease on
+which the workflow exits — or a resume has started, no timer task sleeps and nothing is registered; a release can then be
+attempted again only after a *new* idle announcement, i.e. by a workflow that is up. -/
+theorem C36_dbos_no_timer_outlives_its_workflow (tau : Nat) (acts : List DbosTimer.Act) (a : DbosTimer.Act)
+    (ha : a = .tick ∨ a = .resume) :
+    let s := DbosTimer.stepD (DbosTimer.run (DbosTimer.init tau) acts) a
+    (∀ j x d, s.tasks j ≠ .sleeping x d) ∧ s.reg = none ∧ s.pending = false := by
+  intro s
+  have hinv : DbosTimer.Inv s := by
+    have h0 := DbosTimer.Inv.run acts _ (DbosTimer.Inv.init tau)
+    exact h0.stepD _ a
+  have hp : s.pending = false := by
+    rcases ha with rfl | rfl <;> rfl
+  have hr : s.reg = none := by
+    have h0 := DbosTimer.Inv.run acts _ (DbosTimer.Inv.init tau)
+    rcases ha with rfl | rfl <;> exact (DbosTimer.cancelReg_spec _ h0).1
+  refine ⟨?_, hr, hp⟩
+  intro j x d hj
+  have := (hinv.sl j x d hj).1
+  rw [hr] at this; cases this
+
+/-- non-vacuity: the run consumes a tick inside its release window (timer 0 is past its pop), idles again (timer 1), then
+TickIdleRelease arrives: timer 1 is cancelled -/
+example :
+    let s := DbosTimer.run (DbosTimer.init 200) [.idle, .advance 200, .fire 0, .advance 55, .tick, .idle, .advance 95, .tick]
+    s.tasks 0 = .releasing 0 ∧ s.tasks 1 = .cancelled ∧ s.reg = none ∧ s.attempts.length = 1 := by decide
+
+/-- non-vacuity (`pending` holds right after an announcement, also a repeated one) -/
+example : (DbosTimer.run (DbosTimer.init 200) [.idle, .advance 50, .tick, .advance 70, .idle]).pending = true := by decide
